@@ -213,3 +213,13 @@ func (e *Engine) Truncate(name string) {
 
 // ColIndex returns the index of a column by (case-insensitive) name, -1 when absent.
 func (t *Table) ColIndex(name string) int { return t.colIndex(strings.Trim(name, "` ")) }
+
+// SetAutoIncIncrement changes the server variable auto_increment_increment (takes effect for later statements).
+func (e *Engine) SetAutoIncIncrement(n int64) {
+	e.mu.Lock()
+	defer e.mu.Unlock()
+	if n < 1 {
+		n = 1
+	}
+	e.AutoIncIncrement = n
+}
